@@ -546,6 +546,10 @@ def path_condition(node, root, tracker=None, guards=False):
             idx = [i for i, v in enumerate(p.values) if v is child]
             if idx:
                 conj += [bt.tree(v) for v in p.values[:idx[0]]]
+        elif isinstance(p, ast.BoolOp) and isinstance(p.op, ast.Or):
+            idx = [i for i, v in enumerate(p.values) if v is child]
+            if idx:
+                conj += [("not", [bt.tree(v)]) for v in p.values[:idx[0]]]      # short circuit: reached only when the earlier operands are false
         child = p
         p = getattr(p, "_parent", None)
     if not conj:
